@@ -206,10 +206,26 @@ def run(R):
             drain()
             with warnings.catch_warnings():
                 warnings.simplefilter("ignore")
-                st, out = call(range_of_solutions, g["b"], g["A"], g["lb"], g["ub"], K=g["K"], baseline=g["baseline"], error="raise", n=nsp)
+                via_est = bool(rr.integers(4) == 0)
+                R.count("via:" + ("estimator" if via_est else "function"))
+                if via_est:
+                    # the same system registered in a ReceptorEstimator: filters [0 | A | 0] and unit sources on a unit-step domain
+                    # give the capture matrix A exactly (trapezoid with zero end points = plain sum of exact products)
+                    import dreye
+                    A_ = np.asarray(S["A"], dtype=float); nf_, ns_ = A_.shape
+                    filt = np.hstack([np.zeros((nf_, 1)), A_, np.zeros((nf_, 1))]); src = np.hstack([np.zeros((ns_, 1)), np.eye(ns_), np.zeros((ns_, 1))])
+                    est = dreye.ReceptorEstimator(filt, domain=1.0, K=(1.0 if S["K"] is None else g["K"]), baseline=g["baseline"], sources=src, lb=g["lb"], ub=g["ub"])
+                    if not np.array_equal(np.asarray(est.A, dtype=float), A_):
+                        R.failA(dict(c), "harness: the estimator's capture matrix is not the intended A")
+                    st, out = call(est.range_of_solutions, g["b"], error="raise", n=nsp)
+                else:
+                    st, out = call(range_of_solutions, g["b"], g["A"], g["lb"], g["ub"], K=g["K"], baseline=g["baseline"], error="raise", n=nsp)
                 st_i, out_i = (None, None)
                 if kind.startswith("outside"):
-                    st_i, out_i = call(range_of_solutions, g["b"], g["A"], g["lb"], g["ub"], K=g["K"], baseline=g["baseline"], error=str(rng.choice(["ignore", "warn"])))
+                    if via_est:
+                        st_i, out_i = call(est.range_of_solutions, g["b"], error=str(rng.choice(["ignore", "warn"])))
+                    else:
+                        st_i, out_i = call(range_of_solutions, g["b"], g["A"], g["lb"], g["ub"], K=g["K"], baseline=g["baseline"], error=str(rng.choice(["ignore", "warn"])))
             ev = [e for e in drain() if e["event"] == "range_candidates"]
             R.driver.ask("r" + c["k"], "range", ns, ms(ApF), vs(bprime), vs(lbF), vs(ubF))
             jobs.append((c, S, kind, x if not kind.startswith("outside") else None, bprime, ApF, lbF, ubF, st, out, st_i, out_i, ev))
